@@ -16,10 +16,9 @@ HARNESSES = [
     dict(name="local6", pkg="./plugins/dhcp6/local/", test="TestVerifC19",
          files=[("plugins/dhcp6/local/zz_verif_c19_local6_test.go", "harness/C19/zz_verif_c19_local6_test.go")]),
 ]
-# "repaired" = /repo HEAD + the three open fix patches (fixes/C19_opt82_cut_fragment, C19_reply_skip_empty_options,
-# C19_giaddr_ipv4_only); "head" = /repo HEAD exactly (Coq variant Head).  The Coq variant Defective (code before ALL fixes) is not
-# consulted by the check: a regression to one of the five committed fixes matches neither variant -> VIOLATION.
-VARIANTS = ["repaired", "head"]
+# every recorded finding is fixed in /repo (KNOWN_FINDINGS.txt: nine `fixed:` lines); the check compares with the repaired model only,
+# a regression to any old behaviour is a plain VIOLATION
+VARIANTS = ["repaired"]
 RULE = ("Structured generators, bytes compared exactly with the Coq model, plus property-level observables "
         "(independent RFC 1071 verification h/u, length consistency l, zero UDP checksum z, gopacket option decode gp, "
         "getter read-back get, DHCPv6 re-parse). Frames: ip4/udp4/ip6/wrap with payload sizes {0,1,2,odd,even,~300,1472, "
@@ -465,6 +464,8 @@ def gen_msg6(rng, nested_ok=True):
             sub += o6(5, rb(rng, rng.choice([0, 16, 23])))
         if rng.random() < 0.1:
             sub += o6(13, b"\0\2none")
+        if rng.random() < 0.06:
+            sub += o6(4, rb(rng, 4) + o6(5, ip6b(rng) + rb(rng, 8)))   # IA_TA nested in IA_NA: untouched
         body = rb(rng, 4) + struct.pack(">II", u32(rng), u32(rng)) + sub
         if rng.random() < 0.06:
             body = body[:rng.choice([0, 4, 11])]
@@ -483,6 +484,19 @@ def gen_msg6(rng, nested_ok=True):
         opts.append(o6(23, b"".join(ip6b(rng) for _ in range(rng.choice([1, 2])))))
     if rng.random() < 0.15:
         opts.append(o6(5, ip6b(rng) + rb(rng, 8)))  # stray top-level IAADDR
+    if rng.random() < 0.10:
+        opts.append(o6(26, rb(rng, 8) + bytes([64]) + ip6b(rng)))  # stray top-level IAPREFIX
+    if rng.random() < 0.45:
+        # IA_TA (code 4): IAID(4) + IA options, NO T1/T2 - must pass through byte-identical, as must every other option
+        # whose code is adjacent to the rewritten ones or whose payload merely looks like an IA
+        iaaddr = o6(5, ip6b(rng) + struct.pack(">II", u32(rng), u32(rng)))
+        ta_body = rb(rng, 4) + iaaddr * rng.choice([0, 1, 1, 2]) + (o6(13, b"\0\0") if rng.random() < 0.3 else b"")
+        ia_like = rb(rng, 4) + struct.pack(">II", u32(rng), u32(rng)) + iaaddr
+        code = rng.choice([4, 4, 4, 4, 4, 4, 4, 4, 2, 6, 24, 27, 40, 0, 65535, 259, 793, 6403])   # 259=0x0103, 793=0x0319, 6403=0x1903
+        body = ta_body if code == 4 and rng.random() < 0.8 else rng.choice([ia_like, ta_body, ia_like[:12], ia_like[:11], rb(rng, 40)])
+        if code == 2 and any(x[:2] == b"\0\2" for x in opts):
+            code = 4
+        opts.append(o6(code, body))
     if rng.random() < 0.15:
         opts.append(o6(14, b""))
     rng.shuffle(opts)
@@ -502,7 +516,8 @@ def gen_pseq6(rng):
     pd = rb(rng, rng.choice([14, 14, ln, 10]))        # the proxy's own DUID (same length: in-place rewrite path)
     cid = o6(1, rb(rng, 14))
     ia = o6(3, rb(rng, 4) + struct.pack(">II", u32(rng), u32(rng)) + o6(5, ip6b(rng) + struct.pack(">II", u32(rng), u32(rng))))
-    opts = [cid, ia] + ([o6(2, sd)] if rng.random() < 0.93 else []) + ([o6(23, ip6b(rng))] if rng.random() < 0.3 else [])
+    ta = o6(4, rb(rng, 4) + o6(5, ip6b(rng) + struct.pack(">II", u32(rng), u32(rng))))
+    opts = [cid, ia] + ([o6(2, sd)] if rng.random() < 0.93 else []) + ([o6(23, ip6b(rng))] if rng.random() < 0.3 else []) + ([ta] if rng.random() < 0.5 else [])
     rng.shuffle(opts)
     adv = bytes([rng.choice([2, 7])]) + rb(rng, 3) + b"".join(opts)
     raw = bytes([13, 0]) + ip6b(rng) + ip6b(rng) + (o6(18, b"if0") if rng.random() < 0.5 else b"") + o6(9, adv)
@@ -1062,6 +1077,12 @@ def distribution(cases, impl):
                 c, l = struct.unpack(">HH", m[i:i + 4])
                 if i + 4 + l > len(m):
                     break
+                if c == 4:
+                    inc("lt6_ia_ta")
+                elif c not in (3, 25, 5, 26, 1, 2, 23, 14, 13) and l >= 12:
+                    inc("lt6_other_code_with_ia_like_payload")
+                if c == 26:
+                    inc("lt6_top_level_iaprefix")
                 if c in (3, 25) and l >= 12:
                     j, body = 12, m[i + 4:i + 4 + l]
                     while j + 4 <= len(body):
